@@ -95,14 +95,14 @@ Example C04_checker_nonvacuous :
   wf_b 1 0 100 (BNode (Some (BNode None [(1, None)])) [(5, None)]) = false.
 Proof. vm_compute. repeat split; reflexivity. Qed.
 
-(* MUTATION. How a Set changes the on-disk tree (src/btree/node.rs, btree.rs: descent by the recorded depth,
-   insertion into the node, split of a full node at the median, a new root when the root splits), for EVERY
-   well-shaped sorted tree and every key: the result is well shaped again (every leaf at the recorded depth, one
-   more child than keys in every inner node, at most ORDER keys per node), sorted, and holds exactly the old
-   keys and the new one. bstep is the function the mutation correspondence (kind 104) runs against the raw tree
-   after every operation - for removals too (borrowing from the left / right sibling, merging, the root losing a
-   level): for removals the invariant proof is NOT done; they are covered by that correspondence and by the proved checker
-   applied to the raw tree (C04_checker_sound_order, C04_checker_sound_depth) only. *)
+(* MUTATION. How a Set or a removal changes the on-disk tree (src/btree/node.rs, btree.rs: descent by the recorded
+   depth, insertion into the node, split of a full node at the median, a new root when the root splits; removal
+   with the largest key of the left subtree taking the place of a removed separator, rebalancing by borrowing
+   from the left sibling, else from the right one, else merging, the root losing a level), for EVERY sequence of
+   sets and removals: the tree stays well shaped (every leaf at the recorded depth, one more child than keys in
+   every inner node, at most ORDER keys per node), sorted, balanced in occupancy (every node below the root has at
+   least ORDER/2 keys, an inner root at least one), and holds exactly the keys it should. bstep is the function
+   the mutation correspondence (kind 104) runs against the raw tree after every operation. *)
 Module Mut.
 Import PDB.Model.BTreeMut PDB.Proofs.BTreeMutProofs.
 Theorem C04_set_keeps_tree :
@@ -112,6 +112,15 @@ Theorem C04_sets_keep_tree :
   forall ks, tree_ok (fold_left bt_insert ks binit) /\
              elements (fold_left bt_insert ks binit) = fold_left (fun l k => spec_ins k l) ks [].
 Proof. intros ks. destruct binit_ok as [H0 E0]. destruct (inserts_keep_tree ks binit H0) as [H1 H2]. split; [exact H1|rewrite H2, E0; reflexivity]. Qed.
+Theorem C04_mutations_keep_tree :
+  forall ops, tree_inv (fold_left bstep ops binit) /\ elements (fold_left bstep ops binit) = fold_left spec_step ops [].
+Proof. intros ops. destruct (bsteps_keep_tree ops binit binit_inv) as [H1 H2]. split; [exact H1|exact H2]. Qed.
+Theorem C04_remove_keeps_tree :
+  forall st k, tree_inv st -> tree_inv (bt_remove st k) /\ elements (bt_remove st k) = spec_del k (elements st).
+Proof. exact bt_remove_inv. Qed.
+(* spec_del removes exactly the key *)
+Theorem C04_spec_del_is_set_removal : forall k l x, In x (spec_del k l) <-> x <> k /\ In x l.
+Proof. exact spec_del_in. Qed.
 (* spec_ins on a sorted list is "the key is in, everything else stays, nothing else comes" *)
 Theorem C04_spec_ins_is_set_insertion :
   forall k l x, sorted l -> (In x (spec_ins k l) <-> x = k \/ In x l).
@@ -137,3 +146,6 @@ Print Assumptions C04_prescription_is_unambiguous.
 Print Assumptions Mut.C04_set_keeps_tree.
 Print Assumptions Mut.C04_sets_keep_tree.
 Print Assumptions Mut.C04_spec_ins_is_set_insertion.
+Print Assumptions Mut.C04_mutations_keep_tree.
+Print Assumptions Mut.C04_remove_keeps_tree.
+Print Assumptions Mut.C04_spec_del_is_set_removal.
